@@ -8,7 +8,7 @@ claimed = {
    text="Bounded symbolic model checking of the real ExtAuthZFilter.Check / mustTriggerCheck / matchTriggerRule / stringMatch / GetPathQueryFragment code: for every rule set, path, query and fragment within the byte/shape bounds the solver shows (unsat) that the trigger decision is independent of query/fragment and equals the documented function of the path (quick tier: up to two rules; path.Clean and compiled patterns are modelled, an invalid pattern is one of six witnesses that really do not compile). A for-all over strings that tests cannot enumerate; bounded, not a proof.",
    note="Trusted: go/ssa lowering, the engine's string library (byte-array encoding), z3; regexp.MatchString is an uninterpreted function of (pattern, subject). Outside: strings longer than the caps, more rules/patterns than the bounds."),
  "C08": dict(
-   text="Bounded symbolic model checking of ExtAuthZFilter.Check / matches with mock filters against an independently written reference evaluator (first matching chain, conjunction with short circuit, default deny / allow_unmatched), for all chain lists, criteria, header maps and flags within the bounds.",
+   text="Bounded symbolic model checking of ExtAuthZFilter.Check / matches with mock filters against an independently written reference evaluator (first matching chain, conjunction with short circuit, default deny / allow_unmatched), for all chain lists, criteria, header maps and flags within the bounds. Added: two requests in a row on ONE filter instance, for two chains named alike (also both unnamed) or differently, each request matching either chain or none: the second verdict is the reference verdict of the second request alone (no state carried from request to request).",
    note="Trusted: go/ssa lowering, engine, z3. Header names lower-case ASCII (Envoy), criteria as accepted by the generated validation. Outside: more chains/filters/headers than the bounds; OIDC filters (C01)."),
 }
 pending = {}
